@@ -1,4 +1,5 @@
 import Taskpool.Props.C06
+import Taskpool.Inv.Count
 /-! # C10 — Groups partition the tasks; names are unique and fresh -/
 namespace Taskpool
 open Pool
@@ -138,6 +139,50 @@ theorem C10_member_of_own_group (p : Pool) (m : Nat) (isMap : Bool) (n : String)
   split
   · rename_i e; subst e; rfl
   · rfl
+
+/-- the ids a pool files under a live group name -/
+theorem groupIds_sub_flat (p : Pool) (g : String) (ids : List Nat) (h : p.groupIds g = some ids) :
+    ∃ a b, p.groups = a ++ (g, ids) :: b := by
+  unfold groupIds at h
+  cases hf : p.groups.find? (fun x => x.1 == g) with
+  | none => simp [hf] at h
+  | some e =>
+    simp [hf] at h
+    have h2 := List.find?_some hf
+    simp at h2
+    obtain ⟨a, b, hab, _⟩ := List.find?_eq_some_iff_append.mp hf |>.2
+    refine ⟨a, b, ?_⟩
+    rw [hab]
+    obtain ⟨n, l⟩ := e
+    simp at h h2
+    subst h; subst h2; rfl
+
+/-- **groups partition the tasks** — for every history (any sizes, any number of pools, `pool_size` assignments
+included): no id is reported twice by one group, two live groups with different registry entries never share an id,
+and every reported id is the id of a task the pool created -/
+theorem C10_disjoint (base : Nat) (h : History) (i : Nat) (c : Cfg) (p : Pool)
+    (hc : ((World.init base).run h).cfgs[i]? = some c) (hp : ((World.init base).run h).pools[i]? = some p) :
+    (flat p.groups).Nodup ∧ (∀ t ∈ flat p.groups, t < p.tasks.length) ∧
+    (∀ g ids, p.groupIds g = some ids → ids.Nodup ∧ ∀ t ∈ ids, t < p.tasks.length) ∧
+    (∀ a b c' g1 ids1 g2 ids2, p.groups = a ++ (g1, ids1) :: b ++ (g2, ids2) :: c' → ∀ t, t ∈ ids1 → t ∉ ids2) := by
+  have hg := groupsAll base h i c p hc hp
+  refine ⟨hg.nd, hg.lt, ?_, ?_⟩
+  · intro g ids hgi
+    obtain ⟨a, b, hab⟩ := groupIds_sub_flat p g ids hgi
+    have hnd := hg.nd
+    rw [hab] at hnd
+    simp only [flat_append, flat_cons] at hnd
+    have h1 := (List.nodup_append.mp hnd).2.1
+    refine ⟨(List.nodup_append.mp h1).1, fun t ht => hg.lt t ?_⟩
+    rw [hab]; simp only [flat_append, flat_cons]
+    exact List.mem_append_right _ (List.mem_append_left _ ht)
+  · intro a b c' g1 ids1 g2 ids2 hab t h1 h2
+    have hnd := hg.nd
+    rw [hab] at hnd
+    simp only [flat_append, flat_cons, List.append_assoc] at hnd
+    have hx := (List.nodup_append.mp hnd).2.1
+    have hy := (List.nodup_append.mp hx).2.2
+    exact hy t h1 t (List.mem_append_right _ (List.mem_append_left _ h2)) rfl
 
 /-! Non-vacuity: with groups apply-worker-group-0 and -1 live, the next generated name is …-2 -/
 example : ((((Pool.init .inf none).doApply 1 none gatedSpec).1.doApply 1 none gatedSpec).1.genName "apply") =
